@@ -384,33 +384,43 @@ func gparse(p string) ([]gitem, bool) {
 }
 
 func gden(is []gitem, n string) bool {
-	if len(is) == 0 {
-		return n == ""
-	}
-	switch it := is[0]; it.kind {
-	case '*':
-		for k := 0; k <= len(n); k++ {
-			if gden(is[1:], n[k:]) {
+	// iterative over the non-star items (names and literal patterns may be very long), recursive only at a star
+	for len(is) > 0 {
+		it := is[0]
+		if it.kind == '*' {
+			if len(is) == 1 {
 				return true
 			}
+			for k := 0; k <= len(n); k++ {
+				if gden(is[1:], n[k:]) {
+					return true
+				}
+			}
+			return false
 		}
-		return false
-	case '?':
-		return n != "" && gden(is[1:], n[1:])
-	case 'c':
-		return n != "" && n[0] == it.c && gden(is[1:], n[1:])
-	default:
 		if n == "" {
 			return false
 		}
-		in := false
-		for _, r := range it.ranges {
-			if r[0] <= n[0] && n[0] <= r[1] {
-				in = true
+		switch it.kind {
+		case '?':
+		case 'c':
+			if n[0] != it.c {
+				return false
+			}
+		default:
+			in := false
+			for _, r := range it.ranges {
+				if r[0] <= n[0] && n[0] <= r[1] {
+					in = true
+				}
+			}
+			if in == it.neg {
+				return false
 			}
 		}
-		return in != it.neg && gden(is[1:], n[1:])
+		is, n = is[1:], n[1:]
 	}
+	return n == ""
 }
 
 func isASCII(s string) bool {
@@ -1824,6 +1834,45 @@ func runStream(drv string, n int, out string) {
 		rp.add(k, anyCase{Kind: "Vq", V: &ii}, impl, model, orc)
 		rp.Nontrivial++
 	}
+	// 4c. long names and patterns (lengths around size limits), every rule form, three name shapes; through the
+	//     extracted model up to 65536 bytes, 1 MiB against the oracle only (the extracted model's non-tail-recursive
+	//     list functions are not meant for million-element strings)
+	for _, n := range append(append([]int{}, longSizes...), longHuge) {
+		for si, shape := range longShapes {
+			for fi, form := range longForms {
+				if n == longHuge && !(form == "disallow-star" && shape == "segment" || form == "allow-star" && shape == "deep" || form == "match-star" && shape == "indir") {
+					continue
+				}
+				if n >= 8192 && n != longHuge && (si+fi)%3 != 0 && form != "disallow-star" { // the largest sizes: a third of the combinations
+					continue
+				}
+				in, base := longCase(form, shape, n)
+				o, st, _ := oracleVerify(in)
+				if o == "" {
+					panic("long-names case outside the oracle's domain: " + form)
+				}
+				k := base + "/" + st.end
+				impl := runVerify(in)
+				model := noModel
+				// the model's path cleaning is quadratic in the number of segments: deep paths above 8192 bytes go
+				// through it only in the thorough tier (one form); everything else up to 65536 bytes always
+				useModel := n != longHuge && !(shape == "deep" && n > 8192 && !(os.Getenv("VERIF_TIER") == "thorough" && form == "disallow-star"))
+				if d != nil && useModel {
+					model, _ = d.verify(in)
+				} else {
+					rp.Distribution["long-names/oracle-only(len="+strconv.Itoa(n)+","+shape+")"]++
+				}
+				rp.Distribution[k]++
+				rp.Distribution["long-names/len="+strconv.Itoa(n)]++
+				ii := in
+				if n > 8192 && impl == o && (model == impl || strings.Contains(model, noModel)) {
+					ii = vInput{} // do not keep megabytes around for cases that agree
+				}
+				rp.add(k, anyCase{Kind: "V", V: &ii}, impl, model, o)
+				rp.Nontrivial++
+			}
+		}
+	}
 	// 4b. VerifyArtifacts on every keyword/token variant: artifacts the intended rule would reject or consume
 	for _, v := range variants {
 		in, base := kwVariantCase(v, r.Fork())
@@ -1861,6 +1910,10 @@ func main() {
 			var in vInput
 			var base string
 			switch {
+			case i >= 27 && i < 35:
+				// long names through vm_compute: only up to 1024 bytes (larger ones go through the extracted model)
+				j := i - 27
+				in, base = longCase(longForms[(j*5)%len(longForms)], longShapes[j%3], []int{255, 256, 1023, 1024}[j%4])
 			case i >= 16 && i < 27 || i%10 == 5:
 				// every rule form once at the start (pattern rotating), then a walk through all pattern x form pairs
 				k := i/10*7 + 3
